@@ -377,7 +377,7 @@ func (w *c05World) askHost(conn net.Conn, br *bufio.Reader, ip string) string {
 func c05(env *Env, rep *Report) {
 	cfgs := c05Configs()
 	inputs := c05Inputs()
-	rep.Rule = fmt.Sprintf("the real rdpgw binary started once per startable authentication subset (%d configurations; subsets with local run with TLS) with a scripted authentication service (password table in place of PAM, the real NTLM verifier) behind the unix socket; against each: methods {websocket upgrade, legacy RDG_OUT_DATA, RDG_IN_DATA, GET, POST, FOO} x %d Authorization header shapes (absent, empty, bare / truncated scheme words, Basic good / wrong password / other user's password / unknown user / empty parts / not base64 / no colon / case variants / doubled blank, good Basic credentials whose base64 text contains NTLM or Negotiate, NTLM and Negotiate garbage / type 3 without type 1 / 16-byte type 1, Bearer, Digest, two header lines); Kerberos: SPNEGO tokens with a valid ticket, a ticket under another service key, an expired and a not-yet-valid ticket; NTLM histories: type 1 + type 3 on one connection (NTLM and Negotiate scheme words), on two connections, type 3 twice, wrong password, unknown user. "+
+	rep.Rule = fmt.Sprintf("the real rdpgw binary started once per startable authentication subset (%d configurations; subsets with local run with TLS) with a scripted authentication service (password table in place of PAM, the real NTLM verifier) behind the unix socket; against each: methods {websocket upgrade, legacy RDG_OUT_DATA, RDG_IN_DATA, GET, POST, FOO} x %d Authorization header shapes (absent, empty, bare / truncated scheme words, Basic good / wrong password / other user's password / unknown user / empty parts / not base64 / no colon / case variants / doubled blank, good Basic credentials whose base64 text contains NTLM or Negotiate, NTLM and Negotiate garbage / type 3 without type 1 / 16-byte type 1, Bearer, Digest, two header lines); Kerberos: a ticket without and with an Active Directory PAC (gokrb5 test vectors: the tunnel runs under the confirmed account name, not the directory's display name), SPNEGO tokens with a valid ticket, a ticket under another service key, an expired and a not-yet-valid ticket; NTLM histories: type 1 + type 3 on one connection (NTLM and Negotiate scheme words), on two connections, type 3 twice, wrong password, unknown user. "+
 		"Oracle: no Authorization => 401 with exactly one WWW-Authenticate per enabled scheme; the handler (101 / legacy 200 accept) is reached iff credentials of an enabled scheme were confirmed; the tunnel then carries the confirmed user (observed through which loopback backend the channel reaches); openid alone => open; no panic in the gateway log, process alive. distinct_nontrivial = distinct (configuration, method, input) cases.", len(cfgs), len(inputs)+2)
 	rep.Assumptions = append(rep.Assumptions, "PAM is replaced by a password table (the property is about the gateway's use of the backend's answer)", "Kerberos tickets are forged with the keytab the harness generated for the gateway (the gateway's verification path is real, the KDC is not); wrong-case scheme words and requests with two Authorization lines are unspecified",
 		"real sockets: every read waits up to 10 s; a timeout is an infrastructure error, not a verdict")
@@ -386,6 +386,9 @@ func c05(env *Env, rep *Report) {
 		return
 	}
 	distinct := 0
+	if env.Shard == 0 {
+		distinct += c05KerberosPAC(rep)
+	}
 	for ci, cfg := range cfgs {
 		if !env.mine(ci) {
 			continue
